@@ -278,6 +278,41 @@ def hand_purity_callees(x: fp.Real, y: fp.Real, xs: list[fp.Real], k: fp.Real):
     if hand_pc_loop(e) > 0:
         t4 = 1
     return (a, b, c, d, e)''',
+    'hand_failed_and': '''@fp.fpy
+def hand_failed_and(x: fp.Real, y: fp.Real, xs: list[fp.Real], k: fp.Real):
+    if fp.isfinite(x) and fp.isfinite(y):
+        r = 1
+    else:
+        r = x
+    s = 1
+    if fp.isnan(x) or fp.isnan(y):
+        s = 2
+    else:
+        s = y
+    u = 1
+    if not (x == 0 and y == 0):
+        u = x
+    return r, s, u''',
+    'hand_half_return': '''@fp.fpy
+def hand_half_return(x: fp.Real, y: fp.Real, xs: list[fp.Real], k: fp.Real):
+    if x > 0:
+        v = 2
+        if y > 0:
+            return 7
+        else:
+            w = 1
+    else:
+        v = 3
+    z = v + 1
+    if k > 2:
+        q = 5
+        if x > 1:
+            q = 6
+        else:
+            return z
+    else:
+        q = 4
+    return v + q''',
     'hand_with_dynamic_const': '''@fp.fpy(ctx=fp.FP64)
 def hand_with_dynamic_const(x: fp.Real, y: fp.Real, xs: list[fp.Real], k: fp.Real):
     with fp.IEEEContext(5, k + 9):
